@@ -119,6 +119,12 @@ def main(pid):
     items += [{"text": d, "tok": "ref"} for d in plain[:: (6 if thorough else 25)]]
     for d in docs[:: (2 if thorough else 5)]:
         items.append({"markup": to_markup(d, rnd), "steps": rnd.choice([["html", "all_whitespace"], ["html", "inline_whitespace"], ["html"]]), "tok": "aho"})
+    # configurations: remove_ambiguous=True; markup documents with emphasised (also multi-word, line-wrapped) party names
+    # under step lists that have `html` first, last or in the middle
+    import chk_markup
+    items += [{"text": d, "tok": "aho", "ra": True} for d in plain[:: (3 if thorough else 8)]]
+    for i, m in enumerate(chk_markup.documents(rnd, 1200 if thorough else 300)):
+        items.append({"markup": m, "steps": chk_markup.STEPS[i % len(chk_markup.STEPS)], "tok": "aho", "ra": i % 5 == 0})
     hs_dir = vlib.WORK / f"hs-{os.getpid()}-{time.time_ns()}"
     hs_dir.mkdir(parents=True)
     env = {"VERIF_HS_CACHE": str(hs_dir)}
